@@ -156,4 +156,36 @@ theorem C14_total (t : List UInt8) (sched : List Nat) (tail : Nat) (sizes : List
   refine ⟨readSeq_no_panic sizes _ (TInv_new _), ?_⟩
   exact readAll_no_panic sizes _ [] (TInv_new _)
 
+/-- The client of the decoder inside the crate (`Deserialize for Image`: `read_to_end`, then the size check): the
+    RFC 4648 text of `d` is read back as exactly `d`; a `data` text whose length is not a multiple of four makes
+    `read_to_end` fail, so the document is rejected whatever its size fields say — in particular when the whole
+    groups end exactly where the decoder's 63-byte refill ends. -/
+theorem C14_client :
+    (∀ d : List UInt8, readToEnd (rfcEncode d) = some d) ∧
+    (∀ t : List UInt8, t.length % 4 ≠ 0 → readToEnd t = none ∧ ∀ h w ch, imageAccept h w ch t = none) := by
+  constructor
+  · intro d
+    unfold readToEnd
+    have hrep : List.replicate ((rfcEncode d).length + 1) 32 = List.replicate (rfcEncode d).length 32 ++ 32 :: [] := by
+      rw [List.replicate_succ']
+    rw [hrep, C14_decode_all d [] 0 _ [] 32 (by decide) (by
+      have := rfcEncode_len_ge d
+      rw [sum_replicate_nat]; omega)]
+  · intro t ht
+    have hnone : readToEnd t = none := by
+      unfold readToEnd
+      have h := (C14_length_error t [] 0 (List.replicate (t.length + 1) 32) ht).1
+      revert h
+      generalize readAll (Dec.new ⟨t, [], 0⟩) (List.replicate (t.length + 1) 32) = r
+      intro h
+      cases r with
+      | eof b => exact absurd rfl (h b)
+      | error b => rfl
+      | panic => rfl
+      | pending b => rfl
+    exact ⟨hnone, fun h w ch => by unfold imageAccept; rw [hnone]⟩
+
+/-- the second part is not vacuous: 84 symbols (21 whole groups = one refill of the decoder) plus one stray symbol -/
+example : (List.replicate 85 (65 : UInt8)).length % 4 ≠ 0 := by decide
+
 end SurfProofs.C14
